@@ -351,7 +351,7 @@ type SpecFile struct {
 	Globals    [][3]string // inventory of package-level variables (space separated), props, file:line
 	MapRanges  [][4]string // root function, "func=count ..." inventory of range-over-map loops reachable from it, props, file:line
 	GlobalInvs [][2]string // facts about package-level variables (established by initialisation), file:line
-	TypeInvs  [][3]string // struct type, expression over "self", file:line
+	TypeInvs  [][4]string // struct type, expression over "self", file:line, property tags ("" = every property)
 }
 
 func NewSpecFile() *SpecFile { return &SpecFile{Contracts: map[string]*Contract{}} }
@@ -552,7 +552,7 @@ func ParseSpecLines(sf *SpecFile, file string, lines []string, trusted bool) err
 			if len(fields) < 3 {
 				return errf("typeinv T expr")
 			}
-			sf.TypeInvs = append(sf.TypeInvs, [3]string{fields[1], strings.TrimSpace(rest[len(fields[1]):]), l.at})
+			sf.TypeInvs = append(sf.TypeInvs, [4]string{fields[1], strings.TrimSpace(rest[len(fields[1]):]), l.at, strings.Join(tags, ",")})
 		case "ghostvar":
 			if len(fields) != 3 {
 				return errf("ghostvar name type")
